@@ -184,28 +184,28 @@ static int same_as_lib(const struct ws_sess *s, const struct wsq_result *q)
 }
 
 /* A divergence from the reference was found.  Is it exactly what one (or a combination) of the
- * registered deviation classes of ws.c produces on this input?  Then report those classes (one
- * narrow key each, see known_findings.jsonl); otherwise return 0 and the generic key is used. */
+ * two registered (unrepaired) deviation classes of ws.c produces on this input?  Then report those
+ * classes (one narrow key each, see known_findings.jsonl); otherwise return 0 and the generic key
+ * is used, i.e. the divergence is a violation. */
 static int classify_known(struct ws_sess *s, const struct stream *st, const size_t *reads, size_t nreads, const char *what)
 {
-	static int cid[WSQ_NFLAGS] = { -1, -1, -1, -1, -1, -1 };
-	static const char *cname[WSQ_NFLAGS] = { "known_class_A_continuation_opcode_rejected", "known_class_B_data_opcode_inside_fragmented",
-		"known_class_C_continuation_without_start", "known_class_D_frames_after_close", "known_class_E1_fragmented_control", "known_class_E2_control_over_125" };
+	static int cid_b = -1, cid_c = -1;
 	int pc; unsigned f;
-	for (pc = 1; pc <= WSQ_NFLAGS; pc++)
-		for (f = 1; f <= WSQ_ALL; f++) {
-			struct wsq_result q; int ok, i;
-			if (__builtin_popcount(f) != pc) continue;
+	for (pc = 1; pc <= 2; pc++)
+		for (f = 1; f <= WSQ_REGISTERED; f++) {
+			struct wsq_result q; int ok; unsigned bit;
+			if ((f & ~WSQ_REGISTERED) || __builtin_popcount(f) != pc) continue;   /* repaired classes are no candidates */
 			wsq_run(st->b, st->n, reads, nreads, f, WS_LIMIT, (size_t)p_appclose, &q);
 			ok = same_as_lib(s, &q);
 			wsq_free(&q);
 			if (!ok) continue;
 			mc_observe(" known[");
-			for (i = 0; i < WSQ_NFLAGS; i++) if (f & (1u << i)) {
+			for (bit = 1; bit <= WSQ_REGISTERED; bit <<= 1) if (f & bit) {
 				char key[120];
-				snprintf(key, sizeof key, "C31/%s", wsq_flag_key(1u << i));
-				mc_count_id(&cid[i], cname[i], 1);
-				mc_observe("%s ", wsq_flag_key(1u << i));
+				snprintf(key, sizeof key, "C31/%s", wsq_flag_key(bit));
+				if (bit == WSQ_DATA_IN_FRAGMENTED_OK) mc_count_id(&cid_b, "known_class_B_data_opcode_inside_fragmented", 1);
+				else mc_count_id(&cid_c, "known_class_C_continuation_without_start", 1);
+				mc_observe("%s ", wsq_flag_key(bit));
 				mc_fail(key, "%s: library delivered %zu messages and %s the connection; this is the reference behaviour plus the known deviation(s) %#x of ws.c",
 				    what, s->nmsgs, s->closed ? "closed" : "kept", f);
 			}
